@@ -165,7 +165,7 @@ def r01b(ck, prog):
                 ck.inst("R01b", where, "%s writes rank = %s" % (F.name, rhs.text() if rhs is not None else "?"), prog.config)
                 ok = False
                 if mode == "write" and r0 is not None:
-                    if r0.k == "MemberExpr" and r0.d.get("field") == "rank":
+                    if r0.k == "MemberExpr" and r0.d.get("field") == "rank" and r0.d.get("rec") == "msa_seq":
                         ok = True                                   # copy
                     elif const_value(rhs) is not None:
                         ok = True                                   # constructor constant
@@ -198,7 +198,7 @@ def r01b(ck, prog):
                     q = q.parent
                 if q is not None and q.d["op"] == "=":
                     l = q.kids[0].strip()
-                    is_copy_src = l.k == "MemberExpr" and l.d.get("field") == "rank" and m.within(q.kids[1])
+                    is_copy_src = l.k == "MemberExpr" and l.d.get("field") == "rank" and l.d.get("rec") == "msa_seq" and m.within(q.kids[1])
                 readers += 1
                 ck.inst("R01b", where, "%s reads rank%s" % (F.name, " (copy)" if is_copy_src else ""), prog.config)
                 if not (F.name in comparators or is_copy_src):
